@@ -290,3 +290,40 @@ def run(prop, tier):
                    invariants_checked_on_model=ALL_INV,
                    other_property_rejections=other, exhaustive=False))
     return verdict.finish(ev)
+
+
+def replay(prop, path):
+    """Re-execute the recorded case against the current tree and validate it again."""
+    with open(path) as f:
+        rec = lib.json.load(f)
+    rp = rec["replay"]
+    case = rp["case"]
+    drv = rp["driver"].split("@")[0]
+    if drv == "same":
+        print("cross-run comparison recorded for %s; the differing runs were:" % rec.get("signature"))
+        for e in rp["trace"]["events"]:
+            if e["a"] != e["b"]:
+                print("  %s vs %s" % (e["ra"], e["rb"]))
+                for k in ("inst", "missing", "recs"):
+                    if e["a"][k] != e["b"][k]:
+                        print("   ", k, lib.json.dumps(e["a"][k])[:400], "\n    vs", lib.json.dumps(e["b"][k])[:400])
+        drv = "run"
+    print("replaying %s: %s" % (rec.get("signature"), rec.get("what")))
+    out = lib.run_driver("drive_dr.py", dict(cases=[dict(case, dup=False)], drivers=[drv], npad=6, listlen=2,
+                                              obsfail_every=1 if "obsfail" in rp["trace"]["id"] else 0,
+                                              flip=1 if "@B" in rp["driver"] else 0))
+    traces = out["traces"]
+    for t in traces:
+        t.pop("final", None)
+        t["strict"] = prop == "C04"
+    val = lib.validate_traces("DrTrace", "DrTrace.cfg", traces)
+    for t in traces:
+        for e in t["events"]:
+            print("  ", lib.json.dumps(e, sort_keys=True)[:300])
+    if val["rejected"]:
+        for r in val["rejected"]:
+            print("REJECTED again: event %d clause %s" % (r["line"], r["clause"]))
+        print("VIOLATION property=%s replay=%s" % (prop, path))
+        return 1
+    print("accepted on the current tree (the recorded violation does not reproduce)")
+    return 0
